@@ -31,9 +31,37 @@ const goBin = "go1.26.8"
 var (
 	verifDir = envOr("VERIF_ROOT", "/verif")
 	simDir   = filepath.Join(verifDir, "sim")
-	buildDir = filepath.Join(verifDir, ".build")
+	buildDir = envOr("VERIF_BUILD", filepath.Join(verifDir, ".build"))
 	simTest  = filepath.Join(buildDir, "sim.test")
+	// repoDir is the tree under test. The registered checks always use /repo; the framework's own
+	// tooling (mutant evaluation, background runs) may point it at a scratch copy.
+	repoDir = envOr("VERIF_REPO", "/repo")
+	// outRoot receives evidence/ and replays/: /verif for the registered checks, the private build
+	// directory when the framework's own tooling runs several evaluations side by side.
+	outRoot = func() string {
+		if os.Getenv("VERIF_BUILD") != "" {
+			return os.Getenv("VERIF_BUILD")
+		}
+		return envOr("VERIF_ROOT", "/verif")
+	}()
 )
+
+// modfileArgs returns the -modfile argument that redirects the replace directive to repoDir.
+func modfileArgs() []string {
+	if repoDir == "/repo" {
+		return nil
+	}
+	b, err := os.ReadFile(filepath.Join(simDir, "go.mod"))
+	if err != nil {
+		harness("cannot read go.mod: %v", err)
+	}
+	alt := filepath.Join(buildDir, "go.alt.mod")
+	os.WriteFile(alt, []byte(strings.Replace(string(b), "=> /repo", "=> "+repoDir, 1)), 0o644)
+	if sum, err := os.ReadFile(filepath.Join(simDir, "go.sum")); err == nil {
+		os.WriteFile(filepath.Join(buildDir, "go.alt.sum"), sum, 0o644)
+	}
+	return []string{"-modfile=" + alt}
+}
 
 func goEnv() []string {
 	env := os.Environ()
@@ -49,12 +77,12 @@ func harness(format string, args ...any) {
 func build() {
 	os.MkdirAll(buildDir, 0o755)
 	// keep go.sum in step with /repo (the module under test is a replace target)
-	if b, err := os.ReadFile("/repo/go.sum"); err == nil {
+	if b, err := os.ReadFile(filepath.Join(repoDir, "go.sum")); err == nil {
 		if old, _ := os.ReadFile(filepath.Join(simDir, "go.sum")); !strings.Contains(string(old), firstLine(string(b))) {
 			os.WriteFile(filepath.Join(simDir, "go.sum"), append(old, b...), 0o644)
 		}
 	}
-	cmd := exec.Command(goBin, "test", "-c", "-tags", "verif", "-o", simTest, ".")
+	cmd := exec.Command(goBin, append(append([]string{"test"}, modfileArgs()...), "-c", "-tags", "verif", "-o", simTest, ".")...)
 	cmd.Dir = simDir
 	cmd.Env = goEnv()
 	out, err := cmd.CombinedOutput()
@@ -355,7 +383,7 @@ func main() {
 	trouble = "" // violations were found: they are reported, the trouble is secondary
 
 	// verify every replay in a fresh process before it is reported
-	os.MkdirAll(filepath.Join(verifDir, "replays"), 0o755)
+	os.MkdirAll(filepath.Join(outRoot, "replays"), 0o755)
 	var lines []string
 	var unverified []string
 	extra := map[string]any{}
@@ -364,7 +392,7 @@ func main() {
 	}
 	for i := range violations {
 		v := &violations[i]
-		path := filepath.Join(verifDir, "replays", fmt.Sprintf("%s-seed%d-%s-%d-%d.json", prop, seed, v.Config.Mode, v.Config.Index, i))
+		path := filepath.Join(outRoot, "replays", fmt.Sprintf("%s-seed%d-%s-%d-%d.json", prop, seed, v.Config.Mode, v.Config.Index, i))
 		jb, _ := json.MarshalIndent(v, "", " ")
 		os.WriteFile(path, jb, 0o644)
 		if strings.Contains(v.Key, "|hang|") || strings.Contains(v.Key, "|crash|") {
@@ -463,7 +491,7 @@ func short12(s string) string {
 var simRace = filepath.Join(buildDir, "sim.race.test")
 
 func buildRace() {
-	cmd := exec.Command(goBin, "test", "-race", "-c", "-tags", "verif", "-o", simRace, ".")
+	cmd := exec.Command(goBin, append(append([]string{"test"}, modfileArgs()...), "-race", "-c", "-tags", "verif", "-o", simRace, ".")...)
 	cmd.Dir = simDir
 	env := goEnv()
 	for i, e := range env {
@@ -583,7 +611,7 @@ func raceLeg(tier string, seed uint64, known map[string]core.KnownEntry, stats *
 			stats.KnownSeen[key]++
 			continue
 		}
-		path := filepath.Join(verifDir, "replays", fmt.Sprintf("C13-race-seed%d-procs%d.json", seed, p))
+		path := filepath.Join(outRoot, "replays", fmt.Sprintf("C13-race-seed%d-procs%d.json", seed, p))
 		logp := strings.TrimSuffix(path, ".json") + ".log"
 		os.WriteFile(logp, []byte(out), 0o644)
 		rf := core.ReplayFile{Property: "C13", Scenario: "concurrent", Config: core.Config{Property: "C13", Scenario: "concurrent", Tier: tier, Mode: "race", Index: uint64(p)}, Seed: seed, Key: key, Detail: detail}
@@ -694,9 +722,9 @@ func writeEvidence(prop, tier string, seed uint64, st *core.Stats, distinct, vio
 		"wall_s":     wall,
 		"violations": violations,
 	}
-	os.MkdirAll(filepath.Join(verifDir, "evidence"), 0o755)
+	os.MkdirAll(filepath.Join(outRoot, "evidence"), 0o755)
 	b, _ := json.MarshalIndent(ev, "", " ")
-	os.WriteFile(filepath.Join(verifDir, "evidence", prop+".json"), b, 0o644)
+	os.WriteFile(filepath.Join(outRoot, "evidence", prop+".json"), b, 0o644)
 }
 
 // selftest: determinism of the simulator itself. Every property's first runs
